@@ -78,7 +78,7 @@ def ob_lb_add(bits, width, depth, same_key, timeout_ms):
     vv = ev(m, v)
     cex = {"kind": "log-step", "bits": bits, "width": width, "depth": depth, "max_count": cfg[0], "num_reserved": nrv, "clause": "lower bound min(true, num_reserved+1)",
            "table": [ev(m, c) for c in pre[sk.cms.sid]], "col_key": [ev(m, c) for c in colj], "col_other": [ev(m, c) for c in colk], "value": min(vv, 1 << 20), "value_model": vv,
-           "draws": ([0.0] * max(0, c1 - c0) + [0.9999999999999999] * 64)[:2048], "true_before": ev(m, f)}
+           "draws": ([0.0] * max(0, c1 - c0) + [0.9999999999999999] * 64)[:2048], "true_before": ev(m, f), "same_key": bool(same_key)}
     return {"status": "cex", "stats": stats.as_dict(), "funcs": funcs, "cex": cex, "replay": replay(cex), "finding_key": f"log{bits}-lower-bound"}
 
 
@@ -205,6 +205,17 @@ def replay(cex):
         return logm.replay(cex)
     if k == "log-step":
         rp = logh.replay_log_step(cex)
+        # the lower-bound clause itself on the installed state: the tracked key's smallest counter after the add
+        if not rp.get("reproduced") and cex.get("true_before") is not None and "observed" in rp and str(cex.get("clause", "")).startswith("lower bound"):
+            f, v, nres = cex["true_before"], cex["value"], cex["num_reserved"]
+            same = cex.get("same_key", True)
+            old = rp["observed"]["old_counters"][0 if same else 1]
+            got = rp["observed"]["new_counters"][0 if same else 1]
+            need = min(f + v, nres + 1) if same else min(f, nres + 1)
+            if old >= min(f, nres + 1) and got < need:
+                rp = dict(rp)
+                rp["reproduced"] = True
+                rp["failed_clauses"] = [f"a key with true count {f} whose counters were all >= min({f}, num_reserved+1) had {'its own' if same else 'another'} add of {v}: its smallest counter is now {got} < min(true count, num_reserved+1) = {need}"]
         # plus the lower bound itself, as a real history on a fresh sketch: add the key v times in one call
         try:
             sk = logh.make_real_log(cex["bits"], 1, 1, cex["max_count"], cex["num_reserved"])
